@@ -302,6 +302,230 @@ theorem dryrun_never_changes_decision (o : BuildOpts) (ps : List Policy) (req : 
 
 
 
+
+/-! ## 10. TCP filter chains: HTTP-only fields -/
+
+/-- The operation sets one of the HTTP-only fields (hosts, methods, paths or their negations). -/
+def Operation.usesHttp (o : Operation) : Bool :=
+  !(o.hosts.isEmpty && o.notHosts.isEmpty && o.methods.isEmpty && o.notMethods.isEmpty &&
+    o.paths.isEmpty && o.notPaths.isEmpty)
+
+/-- The operation with its HTTP-only fields removed (ports stay). -/
+def Operation.eraseHttp (o : Operation) : Operation := { ports := o.ports, notPorts := o.notPorts }
+
+def Rule.eraseHttpOps (r : Rule) : Rule := { r with tos := r.tos.map Operation.eraseHttp }
+
+def Gen.httpOnlyPerm : Gen → Bool
+  | .host | .method | .path => true
+  | _ => false
+
+theorem genPermission_tcp_none (g : Gen) (key v : Str) (h : g.httpOnlyPerm = true) :
+    genPermission g key v true = none := by
+  cases g <;> simp [Gen.httpOnlyPerm] at h <;> simp [genPermission]
+
+theorem httpOnly_not_extended (g : Gen) (h : g.httpOnlyPerm = true) : g.extended = false := by
+  cases g <;> simp [Gen.httpOnlyPerm] at h <;> rfl
+
+theorem collect_allow_none (f : Str → Option Matcher) (vs : List Str) (hf : ∀ v, f v = none)
+    (hne : vs ≠ []) : collect true f vs = none := by
+  cases vs with
+  | nil => exact absurd rfl hne
+  | cons v t => simp [collect, hf v]
+
+theorem collect_deny_nil (f : Str → Option Matcher) (vs : List Str) (hf : ∀ v, f v = none) :
+    collect false f vs = some [] := by
+  induction vs with
+  | nil => rfl
+  | cons v t ih => simp [collect, hf v, ih]
+
+/-- ALLOW on TCP: a model rule of an HTTP-only field makes the generation fail. -/
+theorem rulePermission_tcp_allow_none (mr : MRule) (h : mr.g.httpOnlyPerm = true)
+    (hne : mr.values ≠ [] ∨ mr.notValues ≠ []) : rulePermission true true mr = none := by
+  unfold rulePermission
+  simp only [httpOnly_not_extended mr.g h, Bool.false_eq_true, if_false]
+  rcases hne with hne | hne
+  · rw [collect_allow_none _ _ (fun v => genPermission_tcp_none mr.g mr.key v h) hne]
+    simp [seq2]
+  · rw [collect_allow_none _ mr.notValues (fun v => genPermission_tcp_none mr.g mr.key v h) hne]
+    cases (collect true (genPermission mr.g mr.key · true) mr.values).map orClause <;> simp [seq2]
+
+/-- DENY on TCP: a model rule of an HTTP-only field contributes nothing. -/
+theorem rulePermission_tcp_deny_nil (mr : MRule) (h : mr.g.httpOnlyPerm = true) :
+    rulePermission true false mr = some [] := by
+  unfold rulePermission
+  simp only [httpOnly_not_extended mr.g h, Bool.false_eq_true, if_false]
+  rw [collect_deny_nil _ _ (fun v => genPermission_tcp_none mr.g mr.key v h),
+    collect_deny_nil _ _ (fun v => genPermission_tcp_none mr.g mr.key v h)]
+  rfl
+
+theorem concatRules_none_of_mem (f : MRule → Option (List Matcher)) (rl : List MRule) (mr : MRule)
+    (hm : mr ∈ rl) (hf : f mr = none) : concatRules f rl = none := by
+  induction rl with
+  | nil => simp at hm
+  | cons r rs ih =>
+    simp only [List.mem_cons] at hm
+    simp only [concatRules]
+    rcases hm with rfl | hm
+    · simp [hf, seq2]
+    · rw [ih hm]; cases f r <;> simp [seq2]
+
+theorem mapAll_none_of_mem {α β : Type} (f : α → Option β) (ls : List α) (a : α) (hm : a ∈ ls)
+    (hf : f a = none) : mapAll f ls = none := by
+  induction ls with
+  | nil => simp at hm
+  | cons x xs ih =>
+    simp only [List.mem_cons] at hm
+    simp only [mapAll]
+    rcases hm with rfl | hm
+    · simp [hf]
+    · rw [ih hm]; cases f x <;> simp
+
+theorem mem_insertFront_self (g : Gen) (k : Str) (vs nvs : List Str) (l : List MRule)
+    (h : vs ≠ [] ∨ nvs ≠ []) : (⟨k, vs, nvs, g⟩ : MRule) ∈ insertFront g k vs nvs l := by
+  unfold insertFront
+  have : (vs.isEmpty && nvs.isEmpty) = false := by
+    rcases h with h | h
+    · have : vs.isEmpty = false := by simpa using h
+      simp [this]
+    · have : nvs.isEmpty = false := by simpa using h
+      simp [this]
+  simp [this]
+
+theorem mem_insertFront_of_mem (g : Gen) (k : Str) (vs nvs : List Str) (l : List MRule) (mr : MRule)
+    (h : mr ∈ l) : mr ∈ insertFront g k vs nvs l := by
+  unfold insertFront
+  split
+  · exact h
+  · exact List.mem_cons_of_mem _ h
+
+/-- An operation that uses an HTTP-only field yields a model rule of an HTTP-only generator. -/
+theorem operationRules_http_mem (o : Operation) (base : List MRule) (h : o.usesHttp = true) :
+    ∃ mr ∈ operationRules o base, mr.g.httpOnlyPerm = true ∧ (mr.values ≠ [] ∨ mr.notValues ≠ []) := by
+  unfold Operation.usesHttp at h
+  simp only [Bool.not_eq_true', Bool.and_eq_false_iff, List.isEmpty_eq_false_iff] at h
+  unfold operationRules
+  rcases h with ((((h | h) | h) | h) | h) | h
+  · exact ⟨_, mem_insertFront_self _ _ _ _ _ (Or.inl h), rfl, Or.inl h⟩
+  · exact ⟨_, mem_insertFront_self _ _ _ _ _ (Or.inr h), rfl, Or.inr h⟩
+  · exact ⟨_, mem_insertFront_of_mem _ _ _ _ _ _ (mem_insertFront_self _ _ _ _ _ (Or.inl h)), rfl, Or.inl h⟩
+  · exact ⟨_, mem_insertFront_of_mem _ _ _ _ _ _ (mem_insertFront_self _ _ _ _ _ (Or.inr h)), rfl, Or.inr h⟩
+  · exact ⟨_, mem_insertFront_of_mem _ _ _ _ _ _ (mem_insertFront_of_mem _ _ _ _ _ _
+      (mem_insertFront_self _ _ _ _ _ (Or.inl h))), rfl, Or.inl h⟩
+  · exact ⟨_, mem_insertFront_of_mem _ _ _ _ _ _ (mem_insertFront_of_mem _ _ _ _ _ _
+      (mem_insertFront_self _ _ _ _ _ (Or.inr h))), rfl, Or.inr h⟩
+
+/-- **TCP, ALLOW: the whole rule is dropped.** On a TCP filter chain a rule of an ALLOW policy with
+    an operation that uses an HTTP-only field generates no Envoy policy at all (it matches
+    nothing). -/
+theorem tcp_allow_rule_dropped (o : BuildOpts) (pns : Str) (r : Rule) (htcp : o.forTCP = true)
+    (op : Operation) (hop : op ∈ r.tos) (hu : op.usesHttp = true) :
+    compileRule o true pns r = none := by
+  unfold compileRule
+  cases hm : newModel pns r with
+  | none => rfl
+  | some m =>
+    simp only
+    unfold newModel at hm
+    cases hb : baseRules pns r.whens [] [] with
+    | none => simp [hb] at hm
+    | some bb =>
+      obtain ⟨bperm, bprin⟩ := bb
+      simp only [hb, Option.some.injEq] at hm
+      subst hm
+      have hne : r.tos.isEmpty = false := by
+        cases hr : r.tos with
+        | nil => rw [hr] at hop; simp at hop
+        | cons _ _ => rfl
+      obtain ⟨mr, hmr, hg, hv⟩ := operationRules_http_mem op bperm hu
+      unfold generate migrateTrustDomain
+      simp only [hne, Bool.false_eq_true, if_false, htcp]
+      rw [mapAll_none_of_mem (generatePermission true true) _ (operationRules op bperm)
+        (List.mem_map.2 ⟨op, hop, rfl⟩)]
+      unfold generatePermission
+      rw [concatRules_none_of_mem _ _ mr hmr (rulePermission_tcp_allow_none mr hg hv)]
+      rfl
+
+
+theorem seq2_nil_left (x : Option (List Matcher)) : seq2 (some []) x = x := by
+  cases x <;> simp [seq2]
+
+theorem concatRules_insertFront_nil (f : MRule → Option (List Matcher)) (g : Gen) (k : Str)
+    (vs nvs : List Str) (l : List MRule) (hf : f ⟨k, vs, nvs, g⟩ = some []) :
+    concatRules f (insertFront g k vs nvs l) = concatRules f l := by
+  unfold insertFront
+  split
+  · rfl
+  · simp [concatRules, hf, seq2_nil_left]
+
+theorem insertFront_nil (g : Gen) (k : Str) (l : List MRule) : insertFront g k [] [] l = l := by
+  simp [insertFront]
+
+/-- DENY on TCP: the permission generated for an operation is the one generated for the operation
+    without its HTTP-only fields. -/
+theorem generatePermission_tcp_deny_erase (op : Operation) (base : List MRule) :
+    generatePermission true false (operationRules op base) =
+      generatePermission true false (operationRules op.eraseHttp base) := by
+  unfold generatePermission operationRules Operation.eraseHttp
+  simp only [insertFront_nil]
+  rw [concatRules_insertFront_nil _ _ _ _ _ _ (rulePermission_tcp_deny_nil _ rfl),
+    concatRules_insertFront_nil _ _ _ _ _ _ (rulePermission_tcp_deny_nil _ rfl),
+    concatRules_insertFront_nil _ _ _ _ _ _ (rulePermission_tcp_deny_nil _ rfl)]
+
+theorem mapAll_map_congr {α β γ : Type} (f : β → Option γ) (g1 g2 : α → β) (l : List α)
+    (h : ∀ x ∈ l, f (g1 x) = f (g2 x)) : mapAll f (l.map g1) = mapAll f (l.map g2) := by
+  induction l with
+  | nil => rfl
+  | cons a t ih =>
+    simp only [List.map_cons, mapAll, h a (by simp), ih (fun x hx => h x (List.mem_cons_of_mem _ hx))]
+
+/-- **TCP, DENY (and AUDIT): enforced on the remaining conditions.** On a TCP filter chain the
+    Envoy policy generated for a rule of a DENY policy is exactly the one generated for the rule
+    with the HTTP-only operation fields removed. -/
+theorem tcp_deny_rule_remaining (o : BuildOpts) (pns : Str) (r : Rule) (htcp : o.forTCP = true) :
+    compileRule o false pns r = compileRule o false pns r.eraseHttpOps := by
+  unfold compileRule newModel nBasePrincipals Rule.eraseHttpOps
+  simp only
+  cases hb : baseRules pns r.whens [] [] with
+  | none => rfl
+  | some bb =>
+    obtain ⟨bperm, bprin⟩ := bb
+    simp only [List.isEmpty_map, List.map_map]
+    unfold generate migrateTrustDomain
+    simp only [htcp]
+    by_cases ht : r.tos.isEmpty = true
+    · simp only [ht, if_true]
+    · have ht' : r.tos.isEmpty = false := by simpa using ht
+      simp only [ht', Bool.false_eq_true, if_false]
+      rw [mapAll_map_congr (generatePermission true false) (fun x => operationRules x bperm)
+        ((fun x => operationRules x bperm) ∘ Operation.eraseHttp) r.tos
+        (fun op _ => generatePermission_tcp_deny_erase op bperm)]
+
+/-- ... and therefore (with the hypotheses of the main theorems for the remaining rule) the
+    generated policy matches exactly the requests the remaining conditions match. -/
+theorem tcp_deny_enforced_on_remaining (o : BuildOpts) (req : Request) (pns : Str) (r : Rule)
+    (e : EPolicy) (htcp : o.forTCP = true) (h : compileRule o false pns r = some e)
+    (hmig : MigrationNoop o pns r.eraseHttpOps) (hex : RuleExact o req pns r.eraseHttpOps)
+    (htr : RuleTranslated o pns r.eraseHttpOps) :
+    evalPolicy e req = ruleMatches pns r.eraseHttpOps req := by
+  rw [tcp_deny_rule_remaining o pns r htcp] at h
+  exact compileRule_exact o false req pns r.eraseHttpOps e h hmig hex (Or.inr htr)
+
+/-- The remaining conditions are weaker: whatever the rule matches, the remaining rule matches. -/
+theorem ruleMatches_eraseHttpOps_ge (req : Request) (pns : Str) (r : Rule)
+    (h : ruleMatches pns r req = true) : ruleMatches pns r.eraseHttpOps req = true := by
+  unfold ruleMatches Rule.eraseHttpOps at *
+  simp only [Bool.and_eq_true, Bool.or_eq_true, List.isEmpty_map, List.any_map] at h ⊢
+  refine ⟨⟨h.1.1, ?_⟩, h.2⟩
+  rcases h.1.2 with h2 | h2
+  · exact Or.inl h2
+  · right
+    rw [List.any_eq_true] at h2 ⊢
+    obtain ⟨op, hop, hm⟩ := h2
+    refine ⟨op, hop, ?_⟩
+    simp only [Function.comp, opMatches, Operation.eraseHttp, Bool.and_eq_true] at hm ⊢
+    simp [specField, hm.2]
+    simpa [specField] using hm.2
+
 /-! ## 9. Non-vacuity: a concrete policy set and request meet every hypothesis -/
 
 def exOpts : BuildOpts := { bundle := ["cluster.local".toList], forTCP := false, useAuth := true }
